@@ -65,25 +65,23 @@ def run(repo, res):
                   'statement), so its order relative to other positions can change under re-layout'
                   % (key, sorted(kinds)), sample='%s anchored at %s' % (key, sorted(kinds)))
     res.count('binders', n, floor=45)
-    # get_first_body_node_loc: (decorator line, def column) or np(statement)
+    # get_first_body_node_loc, interpreted on concrete bodies: the position it gives is the start of the first token of the body
+    # (the statement's own start, the `@` of the first decorator for a decorated definition)
+    from .. import exprend
+    lays = exprend.first_statement_layouts(repo)
+    for text, ok0, detail in lays:
+        if ok0 is None:
+            raise AnalysisError('get_first_body_node_loc is outside the interpretable subset on %r: %s' % (text, detail))
+        got, first = exprend.EXACT.get(text, (None, None))
+        line = text.splitlines()[0]
+        res.check('C13-R1', 'get_first_body_node_loc on a body starting with %r' % line, got is not None and tuple(got) == tuple(first),
+                  'supp/scope.py', 0,
+                  'get_first_body_node_loc gives %r for a body whose first token starts at %r: not the start of a token, so its order '
+                  'relative to other positions can change under re-layout' % (got, first),
+                  sample='first body position of %r is the start of its first token' % line)
     fb = repo.optional_helper('supp/scope.py', 'get_first_body_node_loc')
-    rets = [r for r in ast.walk(fb) if isinstance(r, ast.Return) and r.value is not None
-            and not (isinstance(r.value, ast.Constant) and r.value.value is None)] if fb is not None else []
-    ok = True
-    for r in rets:
-        t = unparse(r.value)
-        if t == 'np(n)':
-            continue
-        if isinstance(r.value, ast.Tuple) and len(r.value.elts) == 2:
-            a, b = unparse(r.value.elts[0]), unparse(r.value.elts[1])
-            # the `@` of the first decorator sits on the decorator's line at the def's column
-            if a.endswith('.decorator_list[0].lineno') and b.endswith('.col_offset') and \
-                    a.split('.decorator_list')[0] == b[:-len('.col_offset')]:
-                continue
-        ok = False
-    res.check('C13-R1', 'get_first_body_node_loc', ok and (bool(rets) or fb is None), 'supp/scope.py', fb.lineno if fb is not None else 0,
-              'get_first_body_node_loc must return the start of a statement or the (decorator line, def column) pair, '
-              'i.e. the start of the @ token')
+    if fb is not None:
+        res.count('first_body_layouts', len(lays), floor=4)
 
     # ---- R2 ordering uses only comparison ----------------------------------------------------------
     lt = repo.method('supp/util.py', 'Location', '__lt__')
